@@ -84,6 +84,8 @@ CLAIMED.update({
 
 from claims_more import MORE
 CLAIMED.update(MORE)
+from claims_more2 import MORE2
+CLAIMED.update(MORE2)
 
 NOT_APPLICABLE = {
     "C01": "the oracle is the Python clvm package; a contract cannot refer to it and a hand transcription would be a model of the oracle",
@@ -112,7 +114,7 @@ def main():
                 "thorough_cmd": f"./check {p} --tier thorough",
                 "evidence_file": f"/verif/evidence/{p}.json",
                 "replay_cmd_template": f"./check {p} --replay {{path}}",
-                "engine": "kani-harnesses" if p in ("C21", "C16") else "verus-contracts",
+                "engine": "kani-harnesses" if p in ("C21",) else "verus-contracts",
                 "level_claimed": {"category": c.get("cat", "proof"), "text": c["text"], "design_ref": c["ref"]},
                 "level_note": c["note"],
                 "technique": c["tech"],
